@@ -150,11 +150,12 @@ def reproduced (f : File) : Bool := decide (f.roundtrip = .ok f.flatten)
 /-- A text of the fragment that is reproduced byte for byte is in spacing normal form: no
     whitespace before the first token, every separator `""`, `" "` or a line break / one blank line
     and an indentation run, `;` attached, at most one blank line at the end (under the exclusion of
-    `C18.frag_spacing_nf`; the whole fragment: containers, parentheses, calls). -/
+    `C18.frag_spacing_nf`, and like it for the files without `with`: containers, parentheses, calls —
+    `File.basic`). -/
 theorem frag_reproduced_is_normal_form (f : File) (s : Src) (hwf : f.wf = true) (_hws : f.noLeadingWs = true)
-    (hp : f.parse = .ok s) (hclean : s.beforeFlatB = true) (hr : reproduced f = true) :
+    (hbasic : f.basic = true) (hp : f.parse = .ok s) (hclean : s.beforeFlatB = true) (hr : reproduced f = true) :
     concat s.rebuildP = f.flatten ∧ (summ s.rebuildP).fileOk = true := by
-  refine ⟨?_, file_nf_flat f s hwf hp hclean⟩
+  refine ⟨?_, file_nf_flat f s hwf hbasic hp hclean⟩
   have h1 : f.roundtrip = .ok f.flatten := by simpa [reproduced] using hr
   simp only [File.roundtrip, hp] at h1
   injection h1 with h1
@@ -173,7 +174,7 @@ def rfcSample : File :=
 
 example : rfcSample.flatten =
     "{\n  pname = \"x\";\n  # note\n  src = [\n    ./a.nix\n  ];\n\n  meta = { };\n}\n".toList := by decide
-example : rfcSample.wf = true ∧ rfcSample.noLeadingWs = true ∧
+example : rfcSample.wf = true ∧ rfcSample.noLeadingWs = true ∧ rfcSample.basic = true ∧
     reproduced rfcSample = true := by decide
 
 end Fragment
